@@ -46,8 +46,17 @@ def main():
                 mention.setdefault(e["id"], set()).add(pid)
         except Exception as ex:
             print("unreadable", fp, ex)
+    def save():
+        if not dry:
+            json.dump(kf, open(KF, "w"), indent=1, ensure_ascii=False)
+            open(KF, "a").write("\n")
     for pid in args:
-        entries = json.load(open(os.path.join(ROOT, "notes", pid + ".findings.json")))
+        fp = os.path.join(ROOT, "notes", pid + ".findings.json")
+        if not os.path.exists(fp):
+            print(f"{pid}: no findings file")
+            continue
+        save()
+        entries = json.load(open(fp))
         for e in entries:
             fid = e["id"]
             also = sorted(mention.get(fid, set()) - {e.get("property", pid)})
@@ -70,6 +79,18 @@ def main():
                     rec.update(status="fixed", commit=commit, line=f"fixed: property={rec['property']} {commit} {t}",
                                what=e["what"], witness=e.get("witness", ""), fix_diff=e["fix_diff"])
                     print(f"{fid}: repaired by the commit of {same[0]['id']} ({commit})")
+                    if not dry:
+                        kf["findings"].append(rec)
+                        have[fid] = rec
+                    continue
+                # already committed under this very title (an earlier run was interrupted before recording it)?
+                lg = sh("git", "-C", "/repo", "log", "--format=%h %s", "-n", "400").stdout.splitlines()
+                prev = [l.split(" ", 1)[0] for l in lg if l.split(" ", 1)[1] == f"fix: {t}"]
+                if prev:
+                    commit = sh("git", "-C", "/repo", "rev-parse", "--short=9", prev[0]).stdout.strip()
+                    rec.update(status="fixed", commit=commit, line=f"fixed: property={rec['property']} {commit} {t}",
+                               what=e["what"], witness=e.get("witness", ""), fix_diff=e["fix_diff"])
+                    print(f"{fid}: found existing commit {commit}")
                     if not dry:
                         kf["findings"].append(rec)
                         have[fid] = rec
@@ -102,9 +123,7 @@ def main():
                 print(f"{fid}: recorded as known")
             kf["findings"].append(rec)
             have[fid] = rec
-    if not dry:
-        json.dump(kf, open(KF, "w"), indent=1, ensure_ascii=False)
-        open(KF, "a").write("\n")
+    save()
 
 
 if __name__ == "__main__":
